@@ -346,6 +346,7 @@ std::string json_escape(std::string const &s)
 int harness_main(int argc, char **argv)
 {
   Global &G = g();
+  bool describe_only = false;
   for (int i = 1; i < argc; ++i)
   {
     std::string a = argv[i];
@@ -365,9 +366,10 @@ int harness_main(int argc, char **argv)
       while (std::getline(f, line))
         if (!line.empty()) G.opts.known.insert(line);
     }
-    else if (a == "--replay")
+    else if (a == "--replay" || a == "--describe")
     {
       G.opts.replay = true;
+      describe_only = a == "--describe";
       G.opts.only = next();
       std::string ints = next();
       std::stringstream ss(ints);
@@ -385,6 +387,12 @@ int harness_main(int argc, char **argv)
   {
     for (Sec &s : G.sections)
       std::cout << s.name << " " << (s.kind == Kind::exhaustive ? "exhaustive" : "random") << "\n";
+    return 0;
+  }
+  if (describe_only)
+  {
+    for (Sec &s : G.sections)
+      if (s.name == G.opts.only) std::cout << describe_case(s, G.opts.replay_ints) << "\n";
     return 0;
   }
   if (__sanitizer_set_death_callback) __sanitizer_set_death_callback(death_cb);
